@@ -34,6 +34,9 @@ def run(ctx) -> None:
 
     check_qualifiers(ctx, "C05.R1")
     check_executor_returns(ctx, "C05.R2")
+    from .c06 import check_translators_reach_resolver
+
+    check_translators_reach_resolver(ctx, "C05.R2", only_class="GraphNode")
     # the nested call gets the node's graph and the translated inputs, not the outer state
     for q in ("runners.sync.executors.graph_node.SyncGraphNodeExecutor.__call__", "runners.async_.executors.graph_node.AsyncGraphNodeExecutor.__call__"):
         f = db.func(q)
